@@ -307,6 +307,26 @@ func (w *rwWorker) build() {
 		return env.MsgOptIn(p.Vals[3], "0", nil)
 	})
 	ptx("optout(v1)", func(*rwNode) sdk.Msg { return env.MsgOptOut(p.Vals[1], "0") })
+	w.tab.Add("turnover(c0)", func(n engine.Node) (engine.Node, []V) {
+		// the whole validator set of consumer 0 is replaced at the next epoch: v0..v2 leave, v3 joins, so the
+		// next payout finds a non-empty set in which nobody is eligible yet
+		x := n.(*rwNode)
+		c := x.clone()
+		c.touchP()
+		done := 0
+		for _, vi := range []int{0, 1, 2} {
+			if c.P.Deliver(env.MsgOptOut(p.Vals[vi], "0")).Err == nil {
+				done++
+			}
+		}
+		if !p.K.IsOptedIn(c.P.Ctx, "0", p.Vals[3].PAddr()) && c.P.Deliver(env.MsgOptIn(p.Vals[3], "0", nil)).Err == nil {
+			done++
+		}
+		if done == 0 {
+			return nil, nil
+		}
+		return c, nil
+	})
 	ptx("commission(v1,0.9)", func(*rwNode) sdk.Msg { return env.MsgSetCommission(p.Vals[1], "0", "0.9") })
 	ptx("update(no allowed denoms)", func(x *rwNode) sdk.Msg {
 		ds, _ := p.K.GetAllowlistedRewardDenoms(x.P.Ctx, "0")
@@ -567,6 +587,11 @@ func (w *rwWorker) pblock(x *rwNode) (engine.Node, []V) {
 	}
 	w.stats.Count("payout")
 	var total int64
+	defer func() {
+		if total == 0 {
+			w.stats.Count("payout-with-nobody-eligible")
+		}
+	}()
 	nElig := 0
 	for _, v := range vals {
 		if v.eligible {
